@@ -16,7 +16,7 @@ CLAIMED = {
                 "of the ciphertext's own level, in this order), returns bits(q_level) - bits(norm) - 1 clamped at 0 where the "
                 "modulus bit count is that of the level's TOTAL modulus (the sum of per-prime bit counts is a recognised wrong "
                 "form), poly_infty_norm centres against half_round_up(modulus) and keeps the maximum, the computation runs on "
-                "coefficient-form data, and error / ternary samples carry one value in every RNS component. R-BUDGET(reach): for every scheme the budget supports, each ciphertext representation accepted by decrypt is accepted by the budget query (per-projection, per-flag normal-return summaries). R-POWERS: the loop extending the cache of secret-key powers computes each new power from the region immediately before it and the region at offset 0, as a polynomial identity in the old size.",
+                "coefficient-form data, and error / ternary samples carry one value in every RNS component. R-BUDGET(reach): for every scheme the budget supports, each ciphertext representation accepted by decrypt is accepted by the budget query (per-projection, per-flag normal-return summaries). R-POWERS: the loop extending the cache of secret-key powers computes each new power from the region immediately before it and the region at offset 0, as a polynomial identity in the old size. The scaling by t may be written with a precomputed per-prime operand (multiply_operand_inplace over the components of the phase buffer): its MultiplyU64ModOperand::new operand must then be classified a residue (R-RESIDUE classifier); plain_modulus.value() itself is refused.",
         "note": _TB + "Not decided: that the reported number equals the exact budget, the fresh-encryption bound, the growth "
                 "under negation / addition, exact decryption below the threshold — value-level facts. Formula forms outside "
                 "the small recognised table are reported as unresolved, not as violations.",
@@ -92,7 +92,7 @@ CLAIMED = {
                 "tier guard depends (flow-sensitively) only on inputs the guard depends on; no wrapping arithmetic on an "
                 "unbounded signed/floating input feeds a modular reduction; every entry point refuses, on every "
                 "normally-returning path, through a sign test of the scale and through branches computed from the "
-                "scale and from the value(s) against the modulus size. Also: the admissibility bit count carries the sign-bit allowance its formula needs and every float-to-integer cast fits its type under the branch guard. R-OUTCOVER: a caller-supplied plaintext that is resized (old contents kept) is completely defined by the call: indexed stores cover it densely (polynomial identities between strides, loop bounds and the resize length) or follow a zero fill; a loop bounded by the length of an input slice without a fill is refused. R-CONTRA(wrapcast): no wrapped unsigned difference of multi-precision words is reinterpreted as a signed integer of the same width. R-ENCADMIT(modulus): inside a loop over the RNS components every modular primitive is given the component's own prime (the modulus list indexed by the component variable, never by a literal).",
+                "scale and from the value(s) against the modulus size. Also: the admissibility bit count carries the sign-bit allowance its formula needs and every float-to-integer cast fits its type under the branch guard. R-OUTCOVER: a caller-supplied plaintext that is resized (old contents kept) is completely defined by the call: indexed stores cover it densely (polynomial identities between strides, loop bounds and the resize length) or follow a zero fill; a loop bounded by the length of an input slice without a fill is refused. R-CONTRA(wrapcast): no wrapped unsigned difference of multi-precision words is reinterpreted as a signed integer of the same width. R-ENCADMIT(modulus): inside a loop over the RNS components every modular primitive is given the component's own prime (the modulus list indexed by the component variable, never by a literal). R-ROUND: every f64 -> {u,i}{64,128} cast in the CKKS encoders (magnitude estimates through log2 excluded) takes a value whose definition passes through round / floor / ceil / trunc, or `|x| + 0.5` with the absolute value inside the offset.",
         "note": _TB + "Not decided: rounding, double-precision error of the embedding transform, FFT correctness, "
                 "slot order, consistency of RNS components as values.",
         "technique": "flow-sensitive dependency comparison of guards and casts + guard dominance with scalar operands + bit-count formula / cast-width table",
@@ -105,7 +105,7 @@ CLAIMED = {
                 "precondition reaches the ladder through a refusing guard (all-pairs coprimality refusal in RNSBase::new; "
                 "refusal propagation validate <- create_ntt_tables <- NTTTables::new <- try_minimal_primitive_root <- "
                 "try_primitive_root with the up-front 2N | q-1 refusal); identifier reproducibility (compute_parms_id reads "
-                "every hashed field, writers of hashed fields recompute on every path, nothing nondeterministic reachable). Also: the words of the parms_id hash input are stored at pairwise distinct positions for every chain length. Chain construction (R-CHAIN): partially evaluating HeContext::new under each value of the parameters' boolean flag getters never folds the branch around the expansion loop to never-taken; create_next_context_data builds the one-shorter prefix (single pop of the copied moduli), refuses before linking, links both ways from the map entry of the previous id and registers the level under its own id; the expansion loop advances cursor and last id after the zero test; chain indices count down by one per level to 0. R-CONSTDEF(form): a scalar constant copied with a literal index out of a buffer that validate converts in place to RNS form is read before the conversion. R-CONTRA(carry): the carry / borrow returned by a single-word add / sub whose result goes into a word of a multi-word buffer is not discarded.",
+                "every hashed field, writers of hashed fields recompute on every path, nothing nondeterministic reachable). Also: the words of the parms_id hash input are stored at pairwise distinct positions for every chain length. Chain construction (R-CHAIN): partially evaluating HeContext::new under each value of the parameters' boolean flag getters never folds the branch around the expansion loop to never-taken; create_next_context_data builds the one-shorter prefix (single pop of the copied moduli), refuses before linking, links both ways from the map entry of the previous id and registers the level under its own id; the expansion loop advances cursor and last id after the zero test; chain indices count down by one per level to 0. R-CONSTDEF(form): a scalar constant copied with a literal index out of a buffer that validate converts in place to RNS form is read before the conversion. R-CONTRA(carry): the carry / borrow returned by a single-word add / sub whose result goes into a word of a multi-word buffer is not discarded. R-STDTABLE: every literal arm of the six he_standard_params_<bits>_<tc|tq> tables is compared with the HomomorphicEncryption.org standard's bound for that degree (oracle table kept in the checker); a larger value is a violation.",
         "note": _TB + "Not decided: that accepted parameters satisfy the mathematics as values, collision freedom of the "
                 "hash, primality of generated moduli, panic freedom of the whole constructor tree, equality of "
                 "precomputed constants with their definitions.",
@@ -219,7 +219,7 @@ CLAIMED = {
                 "generator the stored seed and mask derive from it only; nothing nondeterministic is reachable from the "
                 "generator's stream and refill hashes exactly (seed, counter); ternary / binomial samples are drawn once "
                 "per coefficient outside the RNS-component loop; the seed is stored and expanded at the same address and "
-                "length through from_seed -> uniform. Also: the error polynomial of every encryption worker is drawn from an entropy generator created inside the call. Word draws (next_u32 / next_u64) refill exactly when fewer than a word's bytes are left in the block (symbolic refill condition on the inlined view).",
+                "length through from_seed -> uniform. Also: the error polynomial of every encryption worker is drawn from an entropy generator created inside the call. Word draws (next_u32 / next_u64) refill exactly when fewer than a word's bytes are left in the block (symbolic refill condition on the inlined view). R-RNGPROV(bias): sample::uniform stores residues drawn by a range sampler (or under an explicit rejection loop), never a raw random word reduced with `%`.",
         "note": _TB + "Not decided: independence of the stream from read chunking, non-repetition, difference between "
                 "seeds, distribution shape, the bound 21.",
         "technique": "generator-kind provenance dataflow + who-may-call + loop-nesting of draw sites + address agreement + noise-generator provenance",
